@@ -333,3 +333,256 @@ Proof.
   destruct (filter (fun sv => sv_runnable sv =? r) (all_services T)) as [|a [|b q]]; cbn [fold_right List.length] in *; [lia| |lia].
   pose proof (node_at_most_one_instance T c h s [sv_id a] H). lia.
 Qed.
+
+(* ------------------------------------------------------------------ the supervision groups of the services are the statements of the root runnable *)
+Lemma find_update_group x d f t : (forall i, n_group (f i) = n_group i) -> option_map n_group (find x (update d f t)) = option_map n_group (find x t).
+Proof.
+  intros Hf. rewrite find_update. destruct (dn_eqb x d) eqn:E; [|reflexivity]. apply dn_eqb_eq in E. subst x. destruct (find d t); cbn [option_map]; [rewrite Hf|]; reflexivity.
+Qed.
+
+Lemma cancel_siblings_group d g x t : option_map n_group (find x (cancel_siblings d g t)) = option_map n_group (find x t).
+Proof.
+  rewrite cancel_siblings_find. destruct (find x t) as [i|]; cbn [option_map]; [|reflexivity]. destruct d; [reflexivity|].
+  destruct (sibling_of (z :: d) g x i); reflexivity.
+Qed.
+
+Lemma proc_died_group d k t t' x : proc_died d k t = Some t' -> option_map n_group (find x t') = option_map n_group (find x t).
+Proof.
+  unfold proc_died. destruct (find d t) as [i|]; [|discriminate].
+  assert (E1 : option_map n_group (find x (update d set_exited t)) = option_map n_group (find x t)) by (apply find_update_group; reflexivity).
+  assert (Other : (if cancelled d (update d set_exited t) && match k with RCtx => true | _ => false end
+                   then Some (update d (set_state SCanceled) (update d set_exited t))
+                   else Some (cancel_siblings d (n_group i) (update d (fun x => set_flag (set_state SDead x)) (update d set_exited t)))) = Some t' ->
+                  option_map n_group (find x t') = option_map n_group (find x t)).
+  { destruct (cancelled d (update d set_exited t) && _); intros H; inv H.
+    - rewrite find_update_group by reflexivity. exact E1.
+    - rewrite cancel_siblings_group, find_update_group by reflexivity. exact E1. }
+  destruct (n_state i), k; try exact Other; intros H; inv H; exact E1.
+Qed.
+
+Lemma fold_max_ge {A} (f : A -> nat) l : forall m a, In a l -> (f a <= fold_left (fun m p => Nat.max m (f p)) l m)%nat.
+Proof.
+  assert (M : forall l m, (m <= fold_left (fun m p => Nat.max m (f p)) l m)%nat).
+  { clear. induction l as [|b l IH]; intros m; cbn [fold_left]; [lia|]. specialize (IH (Nat.max m (f b))). lia. }
+  induction l as [|b l IH]; intros m a Hin; [destruct Hin|]. cbn [fold_left]. destruct Hin as [->|Hin]; [|apply IH; exact Hin].
+  specialize (M l (Nat.max m (f a))). lia.
+Qed.
+
+Lemma parent_child (p : dn) x : parent (p ++ [x]) = p.
+Proof. unfold parent. apply removelast_last. Qed.
+
+Lemma ngroups_gt p x t i : find (p ++ [x]) t = Some i -> (n_group i < ngroups p t)%nat.
+Proof.
+  intros H. unfold ngroups. pose proof (fold_max_ge (fun q : dn * ninfo => S (n_group (snd q))) (children_of p t) 0%nat (p ++ [x], i)) as G. cbn [snd] in G.
+  assert (In (p ++ [x], i) (children_of p t)); [|specialize (G H0); lia].
+  unfold children_of. apply filter_In. split; [apply find_in; exact H|]. cbn [fst]. rewrite parent_child, dn_eqb_refl, app_length. cbn [List.length andb].
+  apply Nat.eqb_eq. lia.
+Qed.
+
+(* where the nodes of the tree after a step come from: the old tree, with their group, or a RunGroup call *)
+Lemma step_origin u e u' z j : step true u e = Ok u' -> find z (s_tree u') = Some j ->
+  (exists i, find z (s_tree u) = Some i /\ n_group i = n_group j) \/
+  (exists p names x, e = ERunGroup p names /\ z = p ++ [x] /\ In x names /\ find z (s_tree u) = None /\ n_group j = ngroups p (s_tree u)).
+Proof.
+  assert (Same : s_tree u' = s_tree u -> find z (s_tree u') = Some j -> exists i, find z (s_tree u) = Some i /\ n_group i = n_group j).
+  { intros -> H. exists j. auto. }
+  assert (G : forall t', option_map n_group (find z t') = option_map n_group (find z (s_tree u)) -> find z t' = Some j -> exists i, find z (s_tree u) = Some i /\ n_group i = n_group j).
+  { intros t' E H. rewrite H in E. destruct (find z (s_tree u)) as [i|]; [|discriminate]. cbn in E. inv E. exists i. auto. }
+  destruct e as [d|d k| | |d|d|d|d names|d k]; cbn [step].
+  - destruct (s_killed u || _); [discriminate|]. destruct (find d (s_tree u)); [|discriminate]. intros H; inv H. intros H. left. apply Same; [reflexivity|exact H].
+  - destruct (s_killed u || _); [discriminate|]. destruct (proc_died d k (s_tree u)) as [t'|] eqn:Ep; [|discriminate]. intros H; inv H. cbn [s_tree]. intros H. left.
+    apply (G t'); [eapply proc_died_group; exact Ep|exact H].
+  - destruct (s_killed u); [discriminate|]. destruct (gc true (s_tree u)) as [t' new] eqn:Eg. intros H; inv H. cbn [s_tree]. intros H. left.
+    assert (Et : t' = fst (gc true (s_tree u))) by (rewrite Eg; reflexivity). subst t'. apply (G (fst (gc true (s_tree u)))); [|exact H].
+    rewrite find_gc in *. destruct (below_target (gct (s_tree u)) z); [discriminate|]. destruct (find z (s_tree u)) as [i|]; cbn [option_map]; [|reflexivity].
+    destruct (is_target (gct (s_tree u)) z); reflexivity.
+  - destruct (s_killed u); [discriminate|]. intros H; inv H. cbn [s_tree]. intros H. left. apply (G (map (fun p : dn * ninfo => (fst p, set_flag (snd p))) (s_tree u))); [|exact H].
+    rewrite (find_mapv (fun _ x => set_flag x)). destruct (find z (s_tree u)); reflexivity.
+  - destruct (has (d, TSleep true) (s_toks u)); [intros H; inv H; intros H; left; apply Same; [reflexivity|exact H]|].
+    destruct (has (d, TSleep false) (s_toks u)); [intros H; inv H; intros H; left; apply Same; [reflexivity|exact H]|discriminate].
+  - destruct (negb _); [discriminate|]. destruct (find d (s_tree u)) as [i|]; [|discriminate].
+    destruct (n_state i); intros H; inv H; cbn [s_tree with_toks]; intros H; left; try (apply Same; [reflexivity|exact H]).
+    apply (G (update d (set_state SHealthy) (s_tree u))); [apply find_update_group; reflexivity|exact H].
+  - destruct (negb _); [discriminate|]. destruct (find d (s_tree u)) as [i|]; [|discriminate].
+    destruct (n_state i); intros H; inv H; cbn [s_tree with_toks]; intros H; left; try (apply Same; [reflexivity|exact H]).
+    apply (G (update d (set_state SDone) (s_tree u))); [apply find_update_group; reflexivity|exact H].
+  - destruct (negb _); [discriminate|]. destruct (run_group d names (s_tree u)) as [t' new| |] eqn:Er; try discriminate; intros H; inv H; cbn [s_tree];
+      [|intros H; left; apply Same; [reflexivity|exact H]].
+    unfold run_group in Er. destruct (find d (s_tree u)) as [i|]; [|discriminate]. destruct (n_state i); try discriminate.
+    destruct (existsb _ names); [discriminate|]. destruct (negb (nodupz names)); [discriminate|]. inv Er. rewrite find_app.
+    destruct (find z (s_tree u)) as [i0|] eqn:Ez; [intros H; inv H; left; exists j; auto|]. intros H. right.
+    change (map (fun x => (d ++ [x], {| n_state := SNew; n_flag := false; n_group := ngroups d (s_tree u); n_exited := false |})) names)
+      with (map (mkchild (ngroups d (s_tree u)) d) names) in H. rewrite find_children in H.
+    destruct (existsb (fun x => dn_eqb z (d ++ [x])) names) eqn:Ex; [|discriminate]. inv H. apply existsb_exists in Ex as (x & Hx & E). apply dn_eqb_eq in E.
+    exists d, names, x. cbn [n_group]. auto.
+  - destruct (negb _); [discriminate|]. intros H; inv H. intros H. left. apply Same; [reflexivity|exact H].
+Qed.
+
+Definition GInv T (u : sst) : Prop :=
+  forall y z i j, find [y] (s_tree u) = Some i -> find [z] (s_tree u) = Some j -> (n_group i = n_group j <-> same_stmt T y z = true).
+
+Lemma same_stmt_sym T x y : same_stmt T x y = same_stmt T y x.
+Proof. unfold same_stmt. induction (nt_prog T) as [|p r IH]; [reflexivity|]. cbn [existsb]. rewrite IH, andb_comm. reflexivity. Qed.
+
+Lemma same_stmt_spec T y z : same_stmt T y z = true <-> exists p, In p (nt_prog T) /\ In y (ids (stmt_services (snd p))) /\ In z (ids (stmt_services (snd p))).
+Proof.
+  unfold same_stmt. rewrite existsb_exists. split.
+  - intros (p & Hp & H). apply andb_true_iff in H as [H1 H2]. apply nodupz_in in H1, H2. exists p. auto.
+  - intros (p & Hp & H1 & H2). exists p. split; [exact Hp|]. apply andb_true_iff. split; apply nodupz_in; assumption.
+Qed.
+
+Lemma map_flat_map {A B C} (f : B -> C) (g : A -> list B) l : map f (flat_map g l) = flat_map (fun x => map f (g x)) l.
+Proof. induction l as [|a l IH]; [reflexivity|]. cbn [flat_map]. rewrite map_app, IH. reflexivity. Qed.
+
+Lemma nodup_app_inv {A} (a b : list A) : NoDup (a ++ b) -> NoDup b /\ (forall y, In y a -> In y b -> False).
+Proof.
+  induction a as [|w r IH]; cbn [app]; intros H; [split; [exact H|intros y []]|]. inv H. destruct (IH H3) as [H0 H1]. split; [exact H0|].
+  intros y [->|Hy] Hb; [apply H2; apply in_or_app; right; exact Hb|exact (H1 y Hy Hb)].
+Qed.
+
+Lemma nodup_flat_map_unique {A} (f : A -> list Z) l a b y : NoDup (flat_map f l) -> In a l -> In b l -> In y (f a) -> In y (f b) -> f a = f b.
+Proof.
+  induction l as [|h t IH]; intros Hnd Ha Hb Hya Hyb; [destruct Ha|]. cbn [flat_map] in Hnd. destruct (nodup_app_inv _ _ Hnd) as [Hnd2 Hdis0].
+  assert (Hdis : forall q, In q t -> In y (f h) -> In y (f q) -> False).
+  { intros q Hq H1 H2. apply (Hdis0 y H1). apply in_flat_map. exists q. auto. }
+  destruct Ha as [->|Ha], Hb as [->|Hb]; [reflexivity|exfalso; eapply Hdis; eassumption|exfalso; eapply Hdis; eassumption|].
+  apply IH; assumption.
+Qed.
+
+Lemma same_stmt_unique T p y z : distinct_ids T = true -> In p (nt_prog T) -> In y (ids (stmt_services (snd p))) -> same_stmt T y z = true -> In z (ids (stmt_services (snd p))).
+Proof.
+  intros Hd Hp Hy Hs. apply same_stmt_spec in Hs as (q & Hq & Hyq & Hzq). unfold distinct_ids, all_services in Hd. unfold ids in *. apply nodupz_spec in Hd. rewrite map_flat_map in Hd.
+  rewrite (nodup_flat_map_unique (fun p => map sv_id (stmt_services (snd p))) (nt_prog T) p q y Hd Hp Hq Hy Hyq). exact Hzq.
+Qed.
+
+Lemma prog_stmt T c n st : nth_error (prog_of T c) n = Some st -> exists g, In (g, st) (nt_prog T).
+Proof.
+  intros H. apply nth_error_In in H. unfold prog_of in H. apply in_map_iff in H as ([g st'] & E & Hin). cbn [snd] in E. subst st'. apply filter_In in Hin as [Hin _]. exists g. exact Hin.
+Qed.
+
+Lemma ginv_step T u e u' : GInv T u -> step true u e = Ok u' -> (forall names, e <> ERunGroup [] names) -> GInv T u'.
+Proof.
+  intros Hg Hs Hne y z i j Hy Hz.
+  destruct (step_origin _ _ _ _ _ Hs Hy) as [(i0 & Ei & Gi)|(p & names & x & -> & E & _)];
+    [|exfalso; destruct p as [|a p]; [exact (Hne names eq_refl)|destruct p; discriminate]].
+  destruct (step_origin _ _ _ _ _ Hs Hz) as [(j0 & Ej & Gj)|(p & names & x & -> & E & _)];
+    [|exfalso; destruct p as [|a p]; [exact (Hne names eq_refl)|destruct p; discriminate]].
+  rewrite <- Gi, <- Gj. apply Hg; assumption.
+Qed.
+
+Lemma ginv_rungroup T u u' p : distinct_ids T = true -> GInv T u -> In p (nt_prog T) ->
+  step true u (ERunGroup [] (ids (stmt_services (snd p)))) = Ok u' -> GInv T u'.
+Proof.
+  intros Hd Hg Hp Hs. set (names := ids (stmt_services (snd p))) in *.
+  assert (New : forall w k, find [w] (s_tree u') = Some k ->
+            (exists k0, find [w] (s_tree u) = Some k0 /\ n_group k0 = n_group k) \/
+            (In w names /\ find [w] (s_tree u) = None /\ n_group k = ngroups [] (s_tree u))).
+  { intros w k Hw. destruct (step_origin _ _ _ _ _ Hs Hw) as [H|(q & nm & x & E & Ew & Hx & Hn & Gk)]; [left; exact H|right].
+    inv E. cbn [app] in Ew. inv Ew. auto. }
+  pose proof Hs as Hs'. cbn [step] in Hs'. destruct (negb _); [discriminate|].
+  destruct (run_group [] names (s_tree u)) as [t' new| |] eqn:Er; try discriminate; [|inv Hs'; exact Hg]. clear Hs'.
+  assert (Old_in : forall w k0, find [w] (s_tree u) = Some k0 -> ~ In w names).
+  { intros w k0 Hw Hin. unfold run_group in Er. destruct (find [] (s_tree u)) as [i0|]; [|discriminate]. destruct (n_state i0); try discriminate.
+    destruct (existsb (fun x => match find ([] ++ [x]) (s_tree u) with Some _ => true | None => false end) names) eqn:Ex; [discriminate|].
+    assert (existsb (fun x => match find ([] ++ [x]) (s_tree u) with Some _ => true | None => false end) names = true); [|congruence].
+    apply existsb_exists. exists w. split; [exact Hin|]. cbn [app]. rewrite Hw. reflexivity. }
+  intros y z i j Hy Hz.
+  destruct (New y i Hy) as [(i0 & Ei & Gi)|(Iy & Ny & Gi)]; destruct (New z j Hz) as [(j0 & Ej & Gj)|(Iz & Nz & Gj)].
+  - rewrite <- Gi, <- Gj. apply Hg; assumption.
+  - pose proof (ngroups_gt [] y (s_tree u) i0 Ei) as Hlt. split; [intros E; lia|]. intros Hss. exfalso. rewrite same_stmt_sym in Hss.
+    exact (Old_in y i0 Ei (same_stmt_unique T p z y Hd Hp Iz Hss)).
+  - pose proof (ngroups_gt [] z (s_tree u) j0 Ej) as Hlt. split; [intros E; lia|]. intros Hss. exfalso.
+    exact (Old_in z j0 Ej (same_stmt_unique T p y z Hd Hp Iy Hss)).
+  - split; [intros _|intros _; congruence]. apply same_stmt_spec. exists p. auto.
+Qed.
+
+Definition ev_kind T (e0 : ev) : Prop :=
+  (forall names, e0 <> ERunGroup [] names) \/ (exists p, In p (nt_prog T) /\ e0 = ERunGroup [] (ids (stmt_services (snd p)))).
+
+Lemma sup_events_kind T c s e s' e0 : pstep1 T c s e = PRun s' -> In e0 (sup_events_of T c s e) -> ev_kind T e0.
+Proof.
+  assert (R : forall d k, In e0 [EReturn d k] -> ev_kind T e0) by (intros d k [<-|[]]; left; discriminate).
+  destruct e as [e|f|d|x|n|x|]; cbn [pstep sup_events_of]; try (intros _ H0; exact (False_ind _ H0)).
+  - unfold sup_event. destruct (root_own e) eqn:Er; [discriminate|]. intros _.
+    destruct e as [d|d k| | |d|d|d|d names|d k]; try (destruct (signal_misuse (p_sup s) _); [apply R|]);
+      intros [<-|[]]; left; intros nm E; inv E; cbn in Er; discriminate.
+  - intros _. destruct (nth_error (prog_of T c) (p_pc s)) as [[svs roe|w| | | |isnil]|] eqn:En; try (intros H0; exact (False_ind _ H0)).
+    + destruct (run_group [] (ids svs) (s_tree (p_sup s))); [|destruct roe; [apply R|intros []]|intros []]. intros [<-|[]]. right.
+      destruct (prog_stmt _ _ _ _ En) as [g Hg]. exists (g, RRun svs roe). split; [exact Hg|reflexivity].
+    + destruct f; [apply R|intros []].
+    + destruct (signal_misuse (p_sup s) (ESignalHealthy [])); [apply R|]. intros [<-|[]]. left. discriminate.
+    + destruct (signal_misuse (p_sup s) (ESignalDone [])); [apply R|]. intros [<-|[]]. left. discriminate.
+    + apply R.
+  - intros _. apply R.
+Qed.
+
+Definition PInv T (s : pst) : Prop := Inv (p_sup s) /\ GInv T (p_sup s).
+
+Lemma run_ginv T evs : distinct_ids T = true -> forall u u', (forall e0, In e0 evs -> ev_kind T e0) -> Inv u -> GInv T u -> run true evs u = Ok u' -> GInv T u'.
+Proof.
+  intros Hd. induction evs as [|e r IH]; intros u u' Hk Hinv Hg H; cbn [run] in H; [inv H; exact Hg|].
+  destruct (step true u e) as [u1| | |] eqn:E; try discriminate.
+  apply (IH u1 u'); [intros e0 H0; apply Hk; right; exact H0|eapply step_inv; eassumption| |exact H].
+  destruct (Hk e (or_introl eq_refl)) as [Hne|(p & Hp & ->)]; [eapply ginv_step; eassumption|eapply ginv_rungroup; eassumption].
+Qed.
+
+Lemma pstep_pinv T c s e s' : distinct_ids T = true -> PInv T s -> pstep1 T c s e = PRun s' -> PInv T s'.
+Proof.
+  intros Hd [Hinv Hg] H. split; [eapply pstep_inv; eassumption|].
+  eapply run_ginv; [exact Hd| |exact Hinv|exact Hg|apply (pstep_sup _ _ _ _ _ H)]. intros e0 H0. eapply sup_events_kind; eassumption.
+Qed.
+
+Lemma prun_pinv T c h : distinct_ids T = true -> forall s s', PInv T s -> prun1 T c h s = PRun s' -> PInv T s'.
+Proof.
+  intros Hd. induction h as [|e r IH]; intros s s' Hp H; cbn [prun] in H; [inv H; exact Hp|].
+  destruct (pstep1 T c s e) as [s1| | |] eqn:E; try discriminate. eapply IH; [eapply pstep_pinv; eassumption|exact H].
+Qed.
+
+Lemma pinv_init T : PInv T pinit.
+Proof. split; [exact inv_init|]. intros y z i j H. discriminate. Qed.
+
+Theorem node_pinv T c h s : distinct_ids T = true -> prun1 T c h pinit = PRun s -> PInv T s.
+Proof. intros Hd H. eapply prun_pinv; [exact Hd|apply pinv_init|exact H]. Qed.
+
+(* (a, converse) a service of the root runnable exits unexpectedly (returns nil, an error, a captured panic; or its context's error
+   while not cancelled): it is DEAD and cancelled; the contexts of exactly the services started by the same supervisor.Run / RunGroup
+   statement are cancelled; no other node of the tree is touched (state and cancel flag) *)
+Theorem service_exit_cancels_exactly_its_group T u x k t' i :
+  Inv u -> GInv T u -> proc_died [x] k (s_tree u) = Some t' -> find [x] (s_tree u) = Some i ->
+  ~ (n_state i = SDone /\ k = RNil) -> ~ (cancelled [x] (s_tree u) = true /\ k = RCtx) ->
+  (exists j, find [x] t' = Some j /\ n_state j = SDead /\ n_flag j = true /\ n_exited j = true) /\
+  (forall z a, find z (s_tree u) = Some a -> z <> [x] ->
+     exists a', find z t' = Some a' /\ n_state a' = n_state a /\
+       n_flag a' = (n_flag a || match z with [y] => same_stmt T x y | _ => false end)).
+Proof.
+  intros Hinv Hg Hpd Hx Hn1 Hn2. pose proof Hinv as (Hnd & _).
+  destruct (died_unexpected [x] k (s_tree u) t' i Hnd Hpd Hx Hn1 Hn2) as [H1 H2]. split; [exact H1|].
+  intros z a Hz Hne. destruct (H2 z a Hz Hne) as (a' & E1 & E2 & E3). exists a'. split; [exact E1|]. split; [exact E2|]. rewrite E3. f_equal.
+  unfold sibling_of. cbn [parent removelast List.length].
+  destruct z as [|y [|y' z']].
+  - reflexivity.
+  - assert (dn_eqb [x] [y] = false) as -> by (apply dn_eqb_neq; intros E; apply Hne; congruence). cbn [negb parent removelast dn_eqb List.length Nat.eqb andb].
+    destruct (same_stmt T x y) eqn:Es.
+    + apply Nat.eqb_eq. symmetry. apply (Hg x y i a Hx Hz). exact Es.
+    + apply Nat.eqb_neq. intros E. symmetry in E. apply (Hg x y i a Hx Hz) in E. congruence.
+  - cbn [List.length Nat.eqb]. rewrite andb_false_r. reflexivity.
+Qed.
+
+(* with one service per statement (supervisor.Run, no RunGroup) nobody else is cancelled *)
+Lemma singleton_same_stmt T x y : singleton_groups T = true -> same_stmt T x y = true -> x = y.
+Proof.
+  intros Hs H. apply same_stmt_spec in H as (p & Hp & Hx & Hy). unfold singleton_groups in Hs. rewrite forallb_forall in Hs. specialize (Hs p Hp).
+  apply Nat.leb_le in Hs. unfold ids in *. destruct (stmt_services (snd p)) as [|a [|b r]]; cbn [List.length map] in *; [destruct Hx| |lia].
+  destruct Hx as [<-|[]], Hy as [<-|[]]. reflexivity.
+Qed.
+
+Theorem service_exit_cancels_nobody_else T u x k t' i :
+  singleton_groups T = true -> Inv u -> GInv T u -> proc_died [x] k (s_tree u) = Some t' -> find [x] (s_tree u) = Some i ->
+  ~ (n_state i = SDone /\ k = RNil) -> ~ (cancelled [x] (s_tree u) = true /\ k = RCtx) ->
+  forall z a, find z (s_tree u) = Some a -> z <> [x] -> exists a', find z t' = Some a' /\ n_state a' = n_state a /\ n_flag a' = n_flag a.
+Proof.
+  intros Hs Hinv Hg Hpd Hx Hn1 Hn2 z a Hz Hne.
+  destruct (service_exit_cancels_exactly_its_group T u x k t' i Hinv Hg Hpd Hx Hn1 Hn2) as [_ H]. destruct (H z a Hz Hne) as (a' & E1 & E2 & E3).
+  exists a'. split; [exact E1|]. split; [exact E2|]. rewrite E3. destruct z as [|y [|? ?]]; try apply orb_false_r.
+  destruct (same_stmt T x y) eqn:Es; [|apply orb_false_r]. exfalso. apply Hne. f_equal. symmetry. eapply singleton_same_stmt; eassumption.
+Qed.
